@@ -384,6 +384,10 @@ def hexsrc(s):
 def run(tier, seed):
     ck = vlib.Check("C12", tier, seed, level="proof")
     ok_obl = ck.obligations(PROP, clean=False)
+    if tier == "thorough":
+        if not ck.coqchk(["GV.Properties.C12"]):
+            ok_obl = False
+            ck.cov["obligation_failure"] = "coqchk failed: " + str(ck.cov.get("coqchk", {}).get("tail", ""))[-500:]
     gvh, err = ck.build_gvh(pkg="./cmd/gvh-front", name="gvh_front" + ("_mut" if os.environ.get("VERIF_C12_OVERLAY") else ""),
                             overlay=os.environ.get("VERIF_C12_OVERLAY"))   # overlay: mutation experiments only
     if gvh is None:
@@ -427,6 +431,16 @@ def run(tier, seed):
                      "literal decoding is exercised separately in (b)",
                      "'function' expressions inside expressions are not modelled (Unsupported); function bodies are covered through "
                      "function statements and local function (Front/Stat.v)"])
+
+
+def lua_batched(gvh, lines, size=3000):
+    """hx.RunLuaCase builds a fresh runtime per case; a long-lived harness process accumulates heap faster than the Go GC
+    returns it and hits the address-space limit of run_lines_resilient after some 10^4 cases (false alarm of the first
+    thorough run) — so the lua engine is fed in batches, one process each."""
+    out = []
+    for i in range(0, len(lines), size):
+        out += vlib.run_lines_resilient(gvh, ["lua"], lines[i:i + size], per_case_timeout=30)
+    return out
 
 
 def known_for_source(ck, src):
@@ -618,7 +632,7 @@ def check_errors(ck, gvh, oracle, tier, st):
     ll = []
     for i, c in enumerate(cases):
         ll.append("c%d %s chunk=chunk" % (i, hexsrc("return (" + c["src"] + ")")))
-    lout = vlib.run_lines_resilient(gvh, ["lua"], ll, per_case_timeout=30)
+    lout = lua_batched(gvh, ll)
     nerr = 0
     for i, c in enumerate(cases):
         f = gout[i].split(" @@ ")
